@@ -170,6 +170,9 @@ public:
         local_stop_ = true;
     }
 
+    void bvisit(const ConditionSet &x);
+    void bvisit(const ImageSet &x);
+
     void bvisit(const Basic &x)
     {
         local_stop_ = false;
